@@ -137,7 +137,7 @@ fn value_checks(s: &mut Sink) {
         }
     }
     for l in [5e-324, 0.001, 0.25, 0.5, 0.5000000000000001, 0.9, 0.95, 0.975, 0.99, 0.9999, 0.1, 1.0 - 2f64.powi(-53)] {
-        for c in [Confidence::new_two_sided(l), Confidence::new_upper(l), Confidence::new_lower(l)] {
+        for c in [Confidence::TwoSided(l), Confidence::UpperOneSided(l), Confidence::LowerOneSided(l)] {
             one("Confidence", &c, false, s);
         }
     }
@@ -215,6 +215,17 @@ fn value_checks(s: &mut Sink) {
     regs::<Harmonic<f32>>(&s32, s);
     regs::<Paired<f32>>(&s32, s);
     regs::<Unpaired<f32>>(&s32, s);
+    // counters of the proportion state at and beyond the 32-bit boundary (usize is 64 bits
+    // here; values up to i64::MAX so that TOML's integer type can hold them)
+    let big = [0usize, 1, 57, u32::MAX as usize - 1, u32::MAX as usize, 1 << 32, (1 << 32) + 1, 5_000_000_000, (1 << 53) + 1, i64::MAX as usize];
+    for &n in &big {
+        for &k in &big {
+            if k <= n {
+                let st = stats_ci::proportion::Stats::new(n, k);
+                one("proportion::Stats", &st, false, s);
+            }
+        }
+    }
     let us = [0usize, 1, 57, 1 << 40];
     for &a in &us {
         one("Interval<usize>", &Interval::TwoSided(a, a + 1), false, s);
